@@ -328,14 +328,20 @@ def m_default(I, path, args):
         return PyMap([])
     if last in ('HashSet', 'BTreeSet'):
         return PyMap([], 'set')
-    if last in ('String',):
+    if last in ('String',) or ty.lstrip('&').strip() in ('str', "'static str", 'String') or re.fullmatch(r"&('\w+ )?(mut )?str", ty):
         return ''
+    if re.fullmatch(r"&('\w+ )?(mut )?\[.*\]", ty):
+        return PyVec([])
     if last in ('Option',):
         return NONE()
     if last in ('bool',):
         return False
-    if last in ('usize', 'u64', 'u32', 'u8', 'i64', 'i32'):
+    if last in ('usize', 'u64', 'u32', 'u16', 'u8', 'u128', 'i64', 'i32', 'i16', 'i8', 'i128', 'isize'):
         return 0
+    if last in ('char',):
+        return 0
+    if ty == '()':
+        return UNIT()
     pre = I.impls.get(('Default', last))
     if pre:
         return I.run(pre[0] + '::default', [])
@@ -580,6 +586,22 @@ def m_into(I, path, args):
                     at = strip_generics(f.argtypes[0])
                     if at.split('::')[-1] == sl:
                         cands.append((n, f, at))
+        if not [x for x in cands if x[2] == strip_generics(src_ty) or x[2].endswith('::' + strip_generics(src_ty)) or strip_generics(src_ty).endswith('::' + x[2])]:
+            # impls generated by derive macros (thiserror's #[from]) are not in the source-level impl index:
+            # look through every one-argument `from` function of the crate that returns the destination type
+            cache = I.env.setdefault('_from_fns', {})
+            if dl not in cache:
+                lst = []
+                for n, fl in I.crate.index.items():
+                    if not n.endswith('>::from'):
+                        continue
+                    for w in range(len(fl)):
+                        f = I.crate.func(n, w)
+                        if f.nargs == 1 and strip_generics(f.ret or '').split('::')[-1] == dl:
+                            lst.append((n, f, strip_generics(f.argtypes[0])))
+                cache[dl] = lst
+            have = {id(x[1]) for x in cands}
+            cands += [x for x in cache[dl] if x[2].split('::')[-1] == sl and id(x[1]) not in have]
         if cands:
             # several source types may share their last path segment (io::Error, anyhow::Error, ...): prefer the
             # candidate whose full path agrees with the source type of this call
